@@ -25,7 +25,8 @@ theorem prim_run (p : Prim) (s : Mgr) : (Prog.prim p Prog.pure).run s = p.exec s
   | mk r s' => cases r <;> simp
 
 /-- `Real(v)` never fails on a legal spelling and returns the node of the denoted rational. -/
-theorem mkReal_spec {s : Mgr} (hs : Inv s) {v : PyNum} {q : Rat} (hv : v.realValue = .ok q) :
+theorem mkReal_spec {s : Mgr} (hs : Inv s) {v : PyNum} {q : Rat} (hv : v.realValue = .ok q)
+    (htc : s.tc (realC q) = true) :
     ∃ i s', (mkReal v).run s = (.ok i, s') ∧ (realC q, i) ∈ s'.formulae ∧ Inv s' ∧ Ext s s' := by
   have hsp := realConst_spec v s hs
   simp only [mkReal, prim_run, Prim.exec]
@@ -35,7 +36,7 @@ theorem mkReal_spec {s : Mgr} (hs : Inv s) {v : PyNum} {q : Rat} (hv : v.realVal
     simp only
     split
     · exact ⟨_, rfl⟩
-    · obtain ⟨i, hi⟩ := createNode_ok (realC q) s (by simp [realC, Content.ids, Payload.ids])
+    · obtain ⟨i, hi⟩ := createNode_ok (realC q) s (by simp [realC, Content.ids, Payload.ids]) htc
       generalize createNode (realC q) s = r at hi
       obtain ⟨r1, s1⟩ := r
       simp only at hi
@@ -51,16 +52,21 @@ theorem mkReal_spec {s : Mgr} (hs : Inv s) {v : PyNum} {q : Rat} (hv : v.realVal
 /-- **Every numeric spelling of a Real constant is the same node**: whatever `int` / `float` /
     `Fraction` / pair denotes the rational `q`, in whatever order, with any program in between. -/
 theorem real_spelling {α : Type} {s : Mgr} (hs : Inv s) {v₁ v₂ : PyNum} {q : Rat}
-    (h₁ : v₁.realValue = .ok q) (h₂ : v₂.realValue = .ok q) (p : Prog α) :
+    (h₁ : v₁.realValue = .ok q) (h₂ : v₂.realValue = .ok q) (htc : s.tc (realC q) = true) (p : Prog α) :
     ∃ i s₁ s₃, (mkReal v₁).run s = (.ok i, s₁) ∧ (mkReal v₂).run (p.run s₁).2 = (.ok i, s₃) := by
-  obtain ⟨i, s₁, hr1, hm1, hi1, _⟩ := mkReal_spec hs h₁
+  obtain ⟨i, s₁, hr1, hm1, hi1, _⟩ := mkReal_spec hs h₁ htc
   have hp := Prog.run_spec p s₁ hi1
-  obtain ⟨j, s₃, hr2, hm2, hi3, he3⟩ := mkReal_spec hp.1 h₂
+  have htc' : (p.run s₁).2.tc (realC q) = true := by
+    rw [Prog.run_tc]
+    have := Prog.run_tc (mkReal v₁) s
+    rw [hr1] at this
+    rw [this]; exact htc
+  obtain ⟨j, s₃, hr2, hm2, hi3, he3⟩ := mkReal_spec hp.1 h₂ htc'
   have : i = j := hi3.tfun _ _ _ (he3.sub _ (hp.2.sub _ hm1)) hm2
   subst this
   exact ⟨i, s₁, s₃, hr1, hr2⟩
 
-theorem mkInt_spec {s : Mgr} (hs : Inv s) (n : Int) :
+theorem mkInt_spec {s : Mgr} (hs : Inv s) (n : Int) (htc : s.tc (intC n) = true) :
     ∃ i s', (mkInt (.int n)).run s = (.ok i, s') ∧ (intC n, i) ∈ s'.formulae ∧ Inv s' ∧ Ext s s' := by
   have hsp := intConst_spec (.int n) s hs
   simp only [mkInt, prim_run, Prim.exec]
@@ -69,7 +75,7 @@ theorem mkInt_spec {s : Mgr} (hs : Inv s) (n : Int) :
     simp only [PyNum.intValue]
     split
     · exact ⟨_, rfl⟩
-    · obtain ⟨i, hi⟩ := createNode_ok (intC n) s (by simp [intC, Content.ids, Payload.ids])
+    · obtain ⟨i, hi⟩ := createNode_ok (intC n) s (by simp [intC, Content.ids, Payload.ids]) htc
       generalize createNode (intC n) s = r at hi
       obtain ⟨r1, s1⟩ := r
       simp only at hi
